@@ -283,6 +283,7 @@ func (E *Engine) applyAsserts(m *Machine, f *Frame, cc *ssa.CallCommon) {
 		}
 		E.addObl(m, &Obligation{Name: fmt.Sprintf("%s:assert@%s:%s", m.Top.Name, site, a.Cl.Label), Func: m.Top.Name, Kind: "assert",
 			Props: props, Reading: a.Cl.Reading, Goal: g, Src: a.Cl.Src})
-		m.AssumeT(g)
+		// the assertion is only checked, not assumed afterwards: nothing downstream may come to depend on it, and a disjunctive
+		// assertion would otherwise burden every later proof on the path
 	}
 }
